@@ -248,6 +248,9 @@ func statusBytes(st *status.Status) string {
 	return common.Hex(b)
 }
 
+// GoroutineGrace is how long goroutines of a finished, torn-down call get to exit.
+var GoroutineGrace = 3 * time.Second
+
 // PromptLimit is the wall-clock bound for "the client learns of the termination promptly".
 var PromptLimit = 2 * time.Second
 
@@ -291,6 +294,7 @@ func RunE2E(line string) string {
 	default:
 		return "HARNESS scenario"
 	}
+	preexisting := BridgeGoroutineSnapshot()
 	method := fmt.Sprintf("/verif.E2E/Call%d", e.seq.Add(1))
 	e.scripts.Store(method, sc)
 	defer e.scripts.Delete(method)
@@ -421,15 +425,12 @@ func RunE2E(line string) string {
 		}
 	default: // the call ended before it reached the target
 	}
-	// no goroutine may keep working for the call inside the forwarder
-	gor := 0
-	for i := 0; i < 200; i++ {
-		if gor = forwardGoroutines(); gor == 0 {
-			break
-		}
-		runtime.Gosched()
-		time.Sleep(5 * time.Millisecond)
-	}
+	// No goroutine may keep working for the call: the call has completed; now the client side of the stream
+	// is torn down as well (so that an abandoned RecvMsg/SendMsg of the proxy's stream adapter returns), and
+	// after that nothing may be left inside the bridge's own code (forwarder, stream adapters, withCtx helpers).
+	cancel()
+	runtime.Gosched()
+	gor, gwhere := WaitBridgeGoroutinesGone(GoroutineGrace, preexisting)
 	sc.mu.Lock()
 	defer sc.mu.Unlock()
 	cst := status.Convert(callErr)
@@ -448,6 +449,7 @@ func RunE2E(line string) string {
 		"got.prompt=" + b2(!notPrompt.Load()),
 		"got.tdone=" + b2(tdone),
 		"got.gor=" + strconv.Itoa(gor),
+		"got.gwhere=" + gwhere,
 	}, " ")
 }
 
@@ -519,6 +521,18 @@ func GenE2E(r *rand.Rand, n int, faults bool, emit func(string)) {
 	mk("unary", [][]byte{{0x0a, 0x03, 'a', 'b', 'c'}}, [][]byte{{0x10, 0x01}}, 0, 0, "", nil)
 	mk("cancel", [][]byte{{0x08, 0x01}}, nil, 1, 0, "", nil)
 	mk("deadline", nil, nil, 0, 0, "", nil)
+	// every gRPC code as the TARGET's final status, with a message and details — including Canceled (1) and
+	// DeadlineExceeded (4), which look like local aborts but here come from the target and must arrive intact
+	for code := 0; code <= 16; code++ {
+		msg := fmt.Sprintf("target status %d – détails", code)
+		det := []byte(fmt.Sprintf("detail-%d", code))
+		mk("echo", [][]byte{{0x08, byte(code)}}, [][]byte{{0x10, byte(code)}}, 0, code, msg, det)
+		mk("idle", [][]byte{{0x08, byte(code)}}, [][]byte{{0x10, byte(code)}}, 1, code, msg, det)
+		if code%4 == 1 {
+			mk("unary", [][]byte{{0x08, byte(code)}}, [][]byte{{0x10, byte(code)}}, 0, code, msg, det)
+			mk("early", nil, nil, 0, code, msg, det)
+		}
+	}
 	scens := []string{"echo", "echo", "pingpong", "unary", "idle", "early", "cancel"}
 	if faults {
 		scens = []string{"idle", "idle", "early", "cancel", "deadline", "echo", "pingpong"}
